@@ -74,7 +74,7 @@ def gen_cases(tier, seed):
                             suball = [rng.random() < 0.3 for _ in range(k)]
                             add(k=k, nw=nw, logger=logger, suball=suball, rst=rst, dest=dest, type=ty,
                                 mon_nw=rng.random() < 0.2, npub=rng.choice([1, 1, 2]))
-        extra = 4000
+        extra = 40000
     else:
         # every not-writable subset for k<=3 (broadcast, ordinary type, no loggers) + sampled product
         for k in (1, 2, 3):
